@@ -5,6 +5,7 @@ All statements are about the definitions of `GPVerif/Model/Noise.lean` that `dri
 (at `ℚ` / `Float`); here they are instantiated at an arbitrary (semi)ring, resp. at `ℝ`.
 -/
 import GPVerif.Model.Noise
+import GPVerif.Gen.NoiseModels
 import GPVerif.Bridge.NoiseGaussian
 import GPVerif.Bridge.NoiseIndex
 import Mathlib.Tactic.SplitIfs
@@ -251,6 +252,86 @@ theorem likelihood_list_call {L A N O : Type} (apply : L → A → Option N → 
   obtain ⟨_, hall⟩ := likelihood_list_routes liks args (some ns) r hr
   obtain ⟨a, ha, ν, hν, ho⟩ := hall k hk
   exact ⟨a, ν, ha, hν, by simp [List.getElem?_map, ho]⟩
+
+/-! ### the definitions regenerated from the source (`Gen/NoiseModels.lean`, translator G7) are the specification
+
+These are re-checked on every run against the file the translator has just written from `$VERIF_REPO`: a change of
+branch order, of the kwargs forwarded to the learned noise, of the Kronecker operand order, of the zip routing or of
+the closed-form expression changes the generated definition and breaks the corresponding proof. -/
+
+section generated
+open Gen.NoiseModels
+
+/-- **Branch order of `FixedGaussianNoise.forward`**: the generated if-chain is `fixedBase`; in particular an
+explicit call-time noise wins whatever the sizes of the stored noise and of the input. -/
+theorem gen_fixed_noise_branch_order [Zero α] (stored : Array α) (n : Nat) (call : Option (Fin n → α)) :
+    fixedForward stored n call = fixedBase stored n call ∧
+    ∀ ν, (fixedForward stored n (some ν)).toMatrix = Matrix.diagonal ν := by
+  constructor
+  · cases call with
+    | none => simp only [fixedForward, fixedBase, retDiagStored, Option.isSome_none, Bool.false_eq_true, if_false]
+              split_ifs <;> rfl
+    | some ν => simp [fixedForward, fixedBase, retDiagCall]
+  · intro ν
+    simp [fixedForward, retDiagCall]
+
+/-- `_HomoskedasticNoiseBase.forward` as generated is `homoNoise`. -/
+theorem gen_homoskedastic_forward [Zero α] (s : α) (n : Nat) (call : Option (Fin n → α)) :
+    homoForward s n call = homoNoise s n call := by
+  cases call <;> simp [homoForward, homoNoise, retDiagCall]
+
+/-- **Which kwargs reach the learned noise**: the generated `_shaped_noise_covar` of the fixed-noise likelihood is
+`fixedNoise` for every input; with call-time noise and learned noise it adds `diag ν + σ² I`. -/
+theorem gen_fixed_calltime_plus_learned [Semiring α] (stored : Array α) (learned : Option α) (n : Nat)
+    (call : Option (Fin n → α)) :
+    fixedShaped stored learned n call = fixedNoise stored learned n call ∧
+    ∀ s ν, (fixedShaped stored (some s) n (some ν)).toMatrix = Matrix.diagonal ν + s • 1 := by
+  have h : ∀ (l : Option α) (c : Option (Fin n → α)), fixedShaped stored l n c = fixedNoise stored l n c := by
+    intro l c
+    cases l with
+    | none => simp only [fixedShaped, fixedNoise, (gen_fixed_noise_branch_order stored n c).1]
+    | some s =>
+      simp only [fixedShaped, fixedNoise, (gen_fixed_noise_branch_order stored n c).1, gen_homoskedastic_forward,
+        homoNoise]
+  exact ⟨h learned call, fun s ν => by rw [h, fixed_calltime_plus_learned]⟩
+
+/-- the generated `full_covar` expression is `C + R` (noise added once). -/
+theorem gen_marginal [Add α] {n : Nat} (C R : DMat n n α) : marginalExpr C R = marginal C R := rfl
+
+/-- **Kronecker operand order per layout and the rank / global / task switches**: the generated multitask
+`_shaped_noise_covar` is `multitaskNoise` — hence `multitask_noise_layout` applies to it. -/
+theorem gen_multitask_kron_order [Semiring α] {t : Nat} (cfg : MTConfig t α) (n : Nat) (interleaved : Bool) :
+    mtShaped cfg n interleaved = multitaskNoise cfg n interleaved := by
+  have hT : ∀ T : TaskNoise t α, taskVar T = T.covar := by intro T; cases T <;> rfl
+  rcases cfg with ⟨_ | T, _ | s⟩ <;> cases interleaved <;>
+    simp [mtShaped, multitaskNoise, MTConfig.block, hT]
+
+/-- **Routing of `LikelihoodList.__call__` / `forward`** as generated from the zip comprehension is `route`. -/
+theorem gen_likelihood_list_routes {L A N : Type} (liks : List L) (args : List A) (noise : Option (List N)) :
+    listCallRoute liks args noise = route liks args noise ∧
+    listForwardRoute liks args noise = route liks args noise := by
+  cases noise <;> exact ⟨rfl, rfl⟩
+
+/-- **The expression in `expected_log_prob`** is the closed form of the specification — hence, by
+`expected_log_prob_eq_integral`, the Gaussian integral. -/
+theorem gen_expected_log_prob_eq_closed_form [Field α] (log : α → α) (log2pi half y m v r : α) :
+    expectedLogProbExpr log log2pi half y m v r = expectedLogProb log log2pi half y m v r := by
+  simp only [expectedLogProbExpr, expectedLogProb, elpQuad]
+  ring
+
+/-- the generated `log_marginal` (torch's Normal density at the diagonal of the generated marginal) is `logMarginal`. -/
+theorem gen_log_marginal_eq_closed_form [Field α] (log : α → α) (log2pi half y m v r : α) :
+    logMarginalExpr log log2pi half y m v r = logMarginal log log2pi half y m v r := by
+  simp only [logMarginalExpr, normalLogProb, logMarginal, lmQuad]
+
+/-- the generated expression integrates exactly (composition with `expected_log_prob_eq_integral`). -/
+theorem gen_expected_log_prob_eq_integral (y m : ℝ) (v r : ℝ≥0) (hr : r ≠ 0) :
+    ∫ f, Real.log (gaussianPDFReal f r y) ∂(gaussianReal m v) =
+      expectedLogProbExpr Real.log (Real.log (2 * π)) (1 / 2) y m v r := by
+  rw [gen_expected_log_prob_eq_closed_form]
+  exact expected_log_prob_eq_integral y m v r hr
+
+end generated
 
 /-! ### the hypotheses are satisfiable / the statements are not vacuous -/
 
